@@ -506,8 +506,8 @@ bool Session::handle_logon(const unsigned seqnum, const Message *msg)
 			}
 		}
 
-		enforce(seqnum, msg);
 		do_state_change(States::st_continuous);
+		enforce(seqnum, msg); // once continuous: a Logon numbered above the expected one leads to a resend request
 	}
 	else // acceptor
 	{
@@ -605,12 +605,12 @@ bool Session::handle_logon(const unsigned seqnum, const Message *msg)
 		if (authenticate(id, msg))
 		{
 			_sid = id;
-			enforce(seqnum, msg);
 			heartbeat_interval hbi;
 			msg->get(hbi);
 			_connection->set_hb_interval(hbi());
 			send(generate_logon(hbi(), davi()));
 			do_state_change(States::st_continuous);
+			enforce(seqnum, msg); // once continuous: a Logon numbered above the expected one leads to a resend request
 			slout_info << "Client setting heartbeat interval to " << hbi();
 		}
 		else
